@@ -279,9 +279,12 @@ pub fn intro_family<T: Fam + Introspect, S: Src>(s: &mut S) {
 
 /// C17, navigation: any sequence of <= 3 introspector commands never panics, and every returned result's flat index
 /// yields an element exactly for the indices below its total length.
-pub fn intro_navigate<S: Src>(s: &mut S) {
+pub fn intro_navigate<S: Src, const OBJ: usize>(s: &mut S) {
     use savefile::{IntrospectedElementKey, Introspector, IntrospectorNavCommand};
-    let obj: Box<dyn Introspect> = match s.below(3) {
+    let obj: Box<dyn Introspect> = match OBJ {
+        3 => Box::new(<crate::family_gen::SNest as Fam>::sym(&mut crate::src::EnumSrc::new())),
+        4 => Box::new(<crate::family_gen::EData as Fam>::sym(&mut crate::src::EnumSrc::new())),
+        5 => Box::new((0..2u32).map(|i| (i, (i as u8, "v".to_string()))).collect::<std::collections::HashMap<u32, (u8, String)>>()),
         0 => Box::new((1u8, vec![(2u16, "s".to_string()); 2], Some(vec![3u32; 3]))),
         1 => Box::new((0..3u32).map(|i| (i, vec![i as u8; i as usize])).collect::<std::collections::BTreeMap<u32, Vec<u8>>>()),
         _ => Box::new(vec![Some(Box::new((1u8, 2u8))), None]),
